@@ -64,7 +64,11 @@ class A:
 
 
 SHAPES = ["lit", "litb", "litf", "lits", "ulit", "int", "str", "gen", "seq", "dinc", "td", "ann", "sub", "tv", "u2", "utv", "never", "any",
-          "annu", "annau", "gtv", "tdab", "tdba"]
+          "annu", "annau", "gtv", "tdab", "tdba", "fn"]
+
+
+def _helper_fn(a: int) -> int:
+    return a
 
 
 def mk(shape: str, x):
@@ -108,6 +112,8 @@ def mk(shape: str, x):
                               [CustomCheckExtension(Gt(5))])
     if shape == "gtv":  # list[T] | list[int]: a type variable nested inside a member, no bare type-variable member
         return MultiValuedValue([GenericValue(list, [TypeVarValue(T)]), GenericValue(list, [TypedValue(int)]), KnownValue(None)])
+    if shape == "fn":  # a function literal: substitution wraps it in KnownValueWithTypeVars, which must stay the same value
+        return KnownValue(_helper_fn)
     if shape == "tdab":  # the same two-key TypedDict written in two key orders: equal values
         return TypedDictValue({"a": TypedDictEntry(TypedValue(int)), "b": TypedDictEntry(KnownValue(x))})
     if shape == "tdba":
@@ -268,6 +274,9 @@ def h14_pair(x: int, y: int, tsel: int, osel: int, ow: int) -> bool:
             if isinstance(w, TypeVarValue) and w.typevar is T:
                 return fin(False)
         if not _nodup(sv):
+            return fin(False)
+        # a substituted copy that is still equal to the original hashes like it and merges with it
+        if not _hash_ok(sv, v) or not _nodup(unite_values(v, sv)):
             return fin(False)
     if not _nodup(ab) or not _nodup(ab.substitute_typevars(m)):
         return fin(False)
